@@ -68,3 +68,68 @@ Example C09_rejected_midway :
   let s := apply_prefix 4096 12 (trace_of_program Direct P_w rho_obs_first) in
   visible s Fin 5 = true /\ emu_ok s Fin (tids P_w) = false.
 Proof. cbv zeta. split; vm_compute; reflexivity. Qed.
+
+(* ==== relocation code from source (unit rtfs) ==== *)
+(* Gen/RtFs_gen.v (translate/units/rtfs.py) holds copy_thread_to_final, move_thdir_step, move_thdir_to_final,
+   try_clean_dir and write_evbuf of src/rt/ovni.c as syntax trees: statements in C order, the while / do-while loops,
+   break / continue, assignments inside conditions, the comma operator, && / ||.  Rt/RtFsPre.v is their meaning: an
+   interpreter with a store for the locals in which every libc call is a primitive that logs the RtFsDefs.op of the
+   call and takes its result from the environment (contents of the source files read in 1024-byte chunks, readdir
+   order of each traversal, one injected fault).  RtFsGenProofs.gen_reloc = what ovni_thread_free runs after close()
+   in OVNI_TMPDIR mode: move_thdir_to_final(thdir, thdir_final); try_clean_dir(thdir). *)
+From OV Require Rt.RtFsPre Gen.RtFs_gen Proofs.RtFsGenProofs.
+From OV Require Proofs.RtFsGenCalls.
+(* For EVERY thread (any event bytes, any metadata text) and EVERY readdir order of the three directory traversals, with
+   enough interpreter fuel (the bound is explicit in the proof: linear in the sizes of the two files and of the three
+   listings) and no fault, the generated code makes exactly the libc calls of RtFsDefs.relocate_new - call for call,
+   same arguments, same order: the chunks of fread / fwrite are those of chunks1024, stream.json is opened only in the
+   second traversal, nothing is removed before the third - followed by the rmdir of thread_free_tr; it prints no
+   diagnostic and does not abort.  The segment of trace_of_program TmpMode that C09_tmpdir_s1 / s2 reason about between
+   close() and the end of ovni_thread_free is therefore what the C does. *)
+Theorem C09_call_sequence_from_source : forall rho th,
+  exists N, forall n, (N <= n)%nat ->
+  exists w, RtFsGenProofs.gen_reloc n rho th None = RtFsPre.ROk w /\
+    rev (RtFsPre.w_log w) = map i_op (relocate_new rho th) ++
+                            [Rmdir (PThread Tmp (th_tid th)) [PFile Tmp (th_tid th) Obs; PFile Tmp (th_tid th) Json]] /\
+    RtFsPre.w_diag w = false /\ RtFsPre.w_dead w = false /\ RtFsPre.w_fault w = None.
+Proof. exact RtFsGenCalls.reloc_calls_from_source. Qed.
+Print Assumptions C09_call_sequence_from_source.
+
+(* copy_thread_to_final alone, for every source file: fopen r, fopen w, (fread, fwrite) per 1024-byte chunk, the fread
+   that returns 0, fclose(out), fclose(in); returns 0 *)
+Theorem C09_copy_calls_from_source : forall E fns src dst,
+  path_eqb src src = true -> path_eqb src dst = false ->
+  forall k n log errno rpos ferr dpass dpos buf, (length (RtFsPre.e_data E src) <= k)%nat -> (k + 30 <= n)%nat ->
+  exists s' rpos' ferr' buf',
+    RtFsPre.exec E fns n (RtFsPre.f_body RtFs_gen.f_copy_thread_to_final) (RtFsGenCalls.cst0 src dst)
+                 (RtFsGenCalls.W log errno rpos ferr dpass dpos buf) =
+    RtFsPre.ROk (RtFsPre.OReturn (RtFsPre.VZ 0), s',
+                 RtFsGenCalls.W (rev (RtFsGenCalls.copy_ops src dst (RtFsPre.e_data E src)) ++ log) errno rpos' ferr' dpass dpos buf').
+Proof. exact RtFsGenCalls.copy_ok. Qed.
+Print Assumptions C09_copy_calls_from_source.
+
+From Coq Require Import String.
+(* the caller: ovni_thread_free, after thread_metadata_store() and close(rthread.streamfd), runs - when the process
+   relocates its trace - exactly move_thdir_to_final(rthread.thdir, rthread.thdir_final); try_clean_dir(rthread.thdir),
+   i.e. RtFsGenProofs.gen_reloc (no other way of moving the files, such as a rename fast path) *)
+Theorem C09_thread_free_relocates_from_source :
+  RtFsGenProofs.nth_stmt 12 (RtFsPre.f_body RtFs_gen.f_ovni_thread_free) =
+  RtFsPre.SIf (RtFsPre.EVar "rproc.move_to_final")
+      (RtFsPre.SSeq (RtFsPre.SExpr (RtFsPre.ECall "move_thdir_to_final" [RtFsPre.EVar "rthread.thdir"; RtFsPre.EVar "rthread.thdir_final"]))
+            (RtFsPre.SExpr (RtFsPre.ECall "try_clean_dir" [RtFsPre.EVar "rthread.thdir"])))
+      RtFsPre.SSkip /\
+  RtFsGenProofs.nth_stmt 10 (RtFsPre.f_body RtFs_gen.f_ovni_thread_free) = RtFsPre.SExpr (RtFsPre.EPrim "close" [RtFsPre.EVar "rthread.streamfd"]) /\
+  RtFsGenProofs.nth_stmt 7 (RtFsPre.f_body RtFs_gen.f_ovni_thread_free) = RtFsPre.SExpr (RtFsPre.EPrim "thread_metadata_store" []).
+Proof. exact RtFsGenProofs.thread_free_relocates. Qed.
+Print Assumptions C09_thread_free_relocates_from_source.
+
+(* evaluated: the example thread (two flushes, 2600 bytes of events), listing ". .. stream.obs stream.json" *)
+Example C09_ex_generated_calls :
+  match RtFsGenProofs.gen_reloc 400 (fun _ _ => [EDot; EDotDot; EFile Obs; EFile Json]) RtFsGenProofs.ex_th None with
+  | RtFsPre.ROk w => rev (RtFsPre.w_log w) =
+                     map i_op (relocate_new (fun _ _ => [EDot; EDotDot; EFile Obs; EFile Json]) RtFsGenProofs.ex_th) ++
+                     [Rmdir (PThread Tmp 5) [PFile Tmp 5 Obs; PFile Tmp 5 Json]] /\ RtFsPre.w_diag w = false
+  | _ => False
+  end.
+Proof. exact RtFsGenProofs.ex_calls. Qed.
+(* ==== end of block (unit rtfs) ==== *)
